@@ -343,6 +343,7 @@ func init() {
 			"with one of 10 request defects that make the transcoder itself produce the error (malformed timeout, unsupported compression/codec, undecodable / oversized / truncated / mis-flagged first message, wrong HTTP method, unknown method). " +
 			"Oracle: the independent strict decoder for the client's protocol must accept the response and find exactly one disposition. Non-trivial = distinct (client, target, behaviour, defect, outcome).",
 		Assume:       []string{"an identical grpc-status repeated in headers and trailers (net/http repeats announced trailer keys) counts as one disposition", "bare HTTP error responses are valid dispositions for rejections before dispatch"},
+		Aux:          conformanceAux,
 		Scenarios:    []Scenario{{Name: "behaviours", Fn: scn, QuickBound: 2, ThoroughBound: 2}},
 		RequireNotes: []string{"judged", "pass-through"},
 		MinOutcomes:  8,
